@@ -77,7 +77,14 @@ def build_blocks(edzed, cfg, hist, fail_start=False):
     class PFsm(edzed.FSM):
         STATES = ['A', 'B']
         TIMERS = {'T1': (5.0, 'tout'), 'T2': (None, edzed.Goto('A'))}
-        EVENTS = [('go', None, 'T1'), ('go2', None, 'T2'), ('tout', 'T1', 'B'), ('back', None, 'A')]
+        EVENTS = [('go', None, 'T1'), ('go2', None, 'T2'), ('tout', 'T1', 'B'), ('back', None, 'A'),
+                  ('note', None, 'A')]
+
+        def cond_note(self):
+            # changes only the additional state data; the event itself is rejected, the FSM
+            # state and its timer stay as they are
+            self.sdata['notes'] = self.sdata.get('notes', 0) + 1
+            return False
 
         def enter_T1(self):
             self.sdata['n'] = self.sdata.get('n', 0) + 1
@@ -137,6 +144,10 @@ def build_blocks(edzed, cfg, hist, fail_start=False):
     blocks['ts'] = edzed.TimeSpan('ts', span=cfg['ts_span'], persistent=True, **exp('ts'))
     blocks['frg'] = Fragile('frg', persistent=True)
     blocks['plain'] = edzed.Input('plain', initdef=0)       # not persistent
+    # an event handled during the clean-up (stop_data of an output block) by a persistent block
+    blocks['fin'] = edzed.Input('fin', initdef='running', persistent=True)
+    blocks['of'] = edzed.OutputFunc('of', func=lambda v: v, stop_data={'value': 'final'},
+                                    on_success=edzed.Event('fin', 'put'), on_error=None)
     if fail_start == 'first_step':
         # fails in the window between the start() calls and the initialisation:
         # the main task raises in its very first step
@@ -297,6 +308,11 @@ def life1(case, ctx):
                  f"at stop: storage[frg] {frg_before!r} -> {snap.get(blocks['frg'].key)!r}"))
         # regular stop: everything saved + timestamp
         ctx.count('regular_stop_checked')
+        if info.get('started') and snap.get(blocks['fin'].key) != 'final':
+            info['violations'].append(
+                ('cleanup-event-not-saved',
+                 f"'fin' handled put('final') during the clean-up (output {blocks['fin'].output!r}), "
+                 f"storage holds {snap.get(blocks['fin'].key)!r}"))
         ts = snap.get('edzed-stop-time')
         if not isinstance(ts, float) or abs(ts - t_stop) > 1e-3:
             info['violations'].append(('stop-timestamp-wrong', f"edzed-stop-time {ts!r}, stop at {t_stop!r}"))
@@ -640,7 +656,7 @@ def random_case(rng):
             steps.append(['ev', 'cnt', rng.choice(['inc', 'dec', 'put']), {'value': rng.choice([3, 12])}
                           if steps and rng.random() < 0.5 else {'value': 5}])
         elif r < 0.65:
-            ev = rng.choice(['go', 'go', 'go2', 'back', 'tout'])
+            ev = rng.choice(['go', 'go', 'go2', 'back', 'tout', 'note', 'note'])
             data = {}
             if rng.random() < 0.3:
                 data['duration'] = rng.choice([1.0, 9.0, '0m2s'])
